@@ -359,6 +359,7 @@ const prelude = `(set-option :produce-models true)
 (assert (forall ((i Int)) (! (= (select zarr1.Flt i) flt.zero) :pattern ((select zarr1.Flt i)))))
 (assert (forall ((i Int)) (! (= (select zarr2.Flt i) zarr1.Flt) :pattern ((select zarr2.Flt i)))))
 (assert (forall ((s Str)) (! (>= (gstr.len s) 0) :pattern ((gstr.len s)))))
+(assert (forall ((s Str) (i Int)) (! (and (<= 0 (gstr.at s i)) (<= (gstr.at s i) 255)) :pattern ((gstr.at s i)))))
 (assert (forall ((s Str) (t Str)) (! (= (gstr.len (gstr.cat s t)) (+ (gstr.len s) (gstr.len t))) :pattern ((gstr.cat s t)))))
 (declare-fun bit.and (Int Int) Int)
 (declare-fun bit.or (Int Int) Int)
